@@ -201,6 +201,12 @@ pub fn exec(op: &str, a: &[String]) -> Option<Reply> {
                 }
             }))
         }
+        ("o.c30.tree", [t]) => {
+            let t = parse_tree(t)?;
+            let l = t.to_lucene();
+            let p2 = real_parse(&l);
+            Some(Reply::oracle(vec![hs(&l), show_parse(&p2).replace('\t', " ")]))
+        }
         ("o.c30", [q]) => {
             let q = uhs(q)?;
             let p1 = real_parse(&q);
@@ -471,6 +477,67 @@ pub fn gen_tree(rng: &mut Rng, depth: u32) -> QueryNode {
     }
 }
 
+const SAFE_WORDS: &[&str] = &[
+    "a", "b", "foo", "bar", "x1", "é", "漢字", "a.b", "a_b", "a,b", "a/b", "a-b", "a+b", "a=b", "a:b", "(x)", "q\"r", "a\\b", "x*y",
+    "TO", "E5", "😀", "a|b", "q;r", "%", "$v", "#t", "a'b", "5x", "~t", "^u", "!v", "<w", ">z", "[k]", "{m}", "AN", "NO", "O", "&", "|",
+    "dAND", "xNOT", "5", "-5", "1.5",
+];
+const SAFE_ATTRS: &[&str] = &[
+    "_default_", "_default_", "f", "g", "host", "@a", "@a.b", "@http.status_code", "tags", "é", "k-1", "f.g", "F1", "a/b", "a=b", "x+y",
+    "_exists_", "_missing_", "dOR",
+];
+
+/// trees biased towards the normal form (most of them satisfy `NF`)
+pub fn gen_nf_tree(rng: &mut Rng, depth: u32) -> QueryNode {
+    if depth > 0 && rng.chance(1, 2) {
+        return match rng.below(3) {
+            0 => QueryNode::NegatedNode { node: Box::new(gen_nf_tree(rng, depth - 1)) },
+            k => {
+                let n = 2 + rng.below(3);
+                QueryNode::Boolean {
+                    oper: if k == 1 { BooleanType::And } else { BooleanType::Or },
+                    nodes: (0..n).map(|_| gen_nf_tree(rng, depth - 1)).collect(),
+                }
+            }
+        };
+    }
+    let attr = rng.pick(SAFE_ATTRS).to_string();
+    let word = |rng: &mut Rng| -> String {
+        let n = 1 + rng.below(2);
+        (0..n).map(|_| *rng.pick(SAFE_WORDS)).collect::<Vec<_>>().join("")
+    };
+    let cv = |rng: &mut Rng, range: bool| -> ComparisonValue {
+        match rng.below(6) {
+            0 if range => ComparisonValue::Unbounded,
+            1 => ComparisonValue::Integer(*rng.pick(&[0, 1, -1, 42, i64::MAX, i64::MIN, 1000])),
+            2 => ComparisonValue::Float(*rng.pick(&[1.5, -2.25, 0.1, 1e-7, 5e-324, 0.30000000000000004, 123456.789, 1e21, 9.223372036854776e18])),
+            3 if range => ComparisonValue::Float(*rng.pick(&[f64::INFINITY, f64::NEG_INFINITY, f64::NAN])),
+            _ => ComparisonValue::String(word(rng)),
+        }
+    };
+    match rng.below(12) {
+        0 => QueryNode::MatchAllDocs,
+        1 => QueryNode::AttributeExists { attr },
+        2 => QueryNode::AttributeMissing { attr },
+        3 => {
+            let incl = rng.chance(1, 2);
+            QueryNode::AttributeRange { attr, lower: cv(rng, true), lower_inclusive: incl, upper: cv(rng, true), upper_inclusive: incl }
+        }
+        4 => QueryNode::AttributeComparison {
+            attr,
+            comparator: *rng.pick(&[Comparison::Gt, Comparison::Lt, Comparison::Gte, Comparison::Lte]),
+            value: cv(rng, false),
+        },
+        5 | 6 | 7 => QueryNode::AttributeTerm { attr, value: word(rng) },
+        8 => QueryNode::QuotedAttribute { attr, phrase: gen_str(rng) },
+        9 => QueryNode::AttributePrefix { attr, prefix: word(rng) },
+        _ => QueryNode::AttributeWildcard {
+            attr,
+            wildcard: rng.pick(&["a*b", "*a", "?a", "a?", "*", "a*b*", "**", "a*?", "é*x", "a-b*c", "?", "*=*", "a?b", "x*y?z"]).to_string(),
+        },
+    }
+}
+
 fn gen_decimal(rng: &mut Rng) -> String {
     match rng.below(10) {
         0 => rng.pick(NUMS).replace('\\', ""),
@@ -511,6 +578,14 @@ pub fn generate(sink: &mut Sink, rng: &mut Rng, n: u64) {
         }
         if i % 4 == 1 {
             sink.emit("c30.f64", &[hs(&gen_decimal(rng))]);
+        }
+        if i % 2 == 0 {
+            let t = if rng.chance(3, 4) { gen_nf_tree(rng, 3) } else { gen_tree(rng, 2) };
+            let ts = show_tree(&t);
+            sink.emit("c30.lucene", &[ts.clone()]);
+            if let Some(r) = sink.emit("o.c30.tree", &[ts]) {
+                sink.count(if r.obs[1] == format!("ok {}", show_tree(&t)) { "c30:tree_roundtrip_same" } else { "c30:tree_roundtrip_differs" });
+            }
         }
     }
 }
